@@ -24,10 +24,11 @@ const (
 	hDeadPeerReset // the peer's death is reported by a read error other than EOF (a reset, a timeout)
 	hWriteFailed   // a request could not be written and the link died with it
 	hWriteFailedUp // a request could not be written (a transient error): the link is still up
+	hRefusedCalls  // calls the server refused (an unknown method, a stream open for an unknown method) and answered with errors
 	nHist
 )
 
-var histNames = []string{"idle", "used", "call-in-flight", "open-stream", "dead-peer", "dead-peer-read-error", "request-write-failed", "request-write-failed-link-up"}
+var histNames = []string{"idle", "used", "call-in-flight", "open-stream", "dead-peer", "dead-peer-read-error", "request-write-failed", "request-write-failed-link-up", "refused-calls"}
 
 func census(x *X, n *FakeNet, what string) {
 	for _, t := range blockedThreads(nil) {
@@ -76,6 +77,18 @@ func c20ConnServer(x *X) {
 		c := newUcall(1, 0, 20, formCall)
 		c.issue(f.conn)
 		f.clientEnd(0).Reset()
+	case hRefusedCalls:
+		c := newUcall(1, 0, 20, formCall)
+		c.method = "Svc.Nope"
+		c.issue(f.conn)
+		if c.err == nil {
+			x.Fail("C20/refused-call-succeeded", "a call to an unknown method returned nil")
+		}
+		if _, err := f.conn.NewStream("Nope.Nope"); err == nil {
+			x.Fail("C20/refused-call-succeeded", "a stream open for an unknown method returned nil")
+		}
+		ok := newUcall(2, 0, 20, formCall)
+		ok.issue(f.conn)
 	case hWriteFailed, hWriteFailedUp:
 		c := newUcall(1, 0, 20, formCall)
 		c.issue(f.conn)
